@@ -60,6 +60,18 @@ M=[
 ("C06_unset_window_by_two","object_impl.go","\tfor _, key := range keys {\n\t\tdelete(ego.val, key)\n\t}\n\treturn ego.Ego()","\tfor len(keys) > 1 {\n\t\tdelete(ego.val, keys[0])\n\t\tkeys = keys[2:]\n\t}\n\treturn ego.Ego()"),
 ("C01_cascade_table_float_first","parser.go","\tinteger, err := strconv.ParseInt(field, 0, bits.UintSize)\n\tif err == nil {\n\t\treturn int(integer), nil\n\t}\n\tfloat, err := strconv.ParseFloat(field, 64)\n\tif err == nil {\n\t\treturn float, nil\n\t}","\tfirst := [...]func(string) (any, error){\n\t\tfunc(s string) (any, error) { return strconv.ParseFloat(s, 64) },\n\t\tfunc(s string) (any, error) {\n\t\t\tinteger, err := strconv.ParseInt(s, 0, bits.UintSize)\n\t\t\treturn int(integer), err\n\t\t},\n\t}\n\tfor _, try := range first {\n\t\tif value, err := try(field); err == nil {\n\t\t\treturn value, nil\n\t\t}\n\t}"),
 ("C01_cascade_float_first","parser.go","\tinteger, err := strconv.ParseInt(field, 0, bits.UintSize)\n\tif err == nil {\n\t\treturn int(integer), nil\n\t}\n\tfloat, err := strconv.ParseFloat(field, 64)\n\tif err == nil {\n\t\treturn float, nil\n\t}","\tfloat, err := strconv.ParseFloat(field, 64)\n\tif err == nil {\n\t\treturn float, nil\n\t}\n\tinteger, err := strconv.ParseInt(field, 0, bits.UintSize)\n\tif err == nil {\n\t\treturn int(integer), nil\n\t}"),
+# adversarial, round 9: wrong programs in the unboxed / kind-arm / fast-path styles
+("C12_getint_unboxed_float_fastpath","object_impl.go","func (ego *object) GetInt(key string) int {\n\to, ok := ego.Get(key).(int)","func (ego *object) GetInt(key string) int {\n\tif f, isFloat := ego.val[key].(*atFloat); isFloat {\n\t\treturn int(f.val)\n\t}\n\to, ok := ego.Get(key).(int)"),
+("C18_intsum_unboxed_counts_floats","list_impl.go","\t\tvalue, ok := item.getVal().(int)\n\t\tif ok {\n\t\t\tresult += value\n\t\t}\n\t}\n\treturn\n}","\t\tif a, ok := item.(*atInt); ok {\n\t\t\tresult += a.val\n\t\t} else if f, ok := item.(*atFloat); ok {\n\t\t\tresult += int(f.val)\n\t\t}\n\t}\n\treturn\n}"),
+("C14_filterints_newint_shifted","list_impl.go","\tresult := NewList()\n\tfor _, item := range ego.val {\n\t\tval, ok := item.getVal().(int)\n\t\tif ok && function(val) {\n\t\t\tresult.Add(val)\n\t\t}\n\t}\n\treturn result","\tresult := NewList().(*list)\n\tfor _, item := range ego.val {\n\t\tval, ok := item.getVal().(int)\n\t\tif ok && function(val) {\n\t\t\tresult.val = append(result.val, newInt(val+1))\n\t\t}\n\t}\n\treturn result"),
+("C16_format_fastpath_len_le4","list_impl.go","\tbuffer := new(bytes.Buffer)\n\tjson.Indent(buffer, []byte(ego.String()), \"\", strings.Repeat(\" \", indent))\n\treturn buffer.String()","\tcompact := ego.String()\n\tif len(compact) <= 4 {\n\t\treturn compact\n\t}\n\tbuffer := new(bytes.Buffer)\n\tjson.Indent(buffer, []byte(compact), \"\", strings.Repeat(\" \", indent))\n\treturn buffer.String()"),
+("C05_get_unsigned_guard_cap","list_impl.go","\tif len(ego.val) <= index || index < 0 {\n\t\tpanic(fmt.Sprintf(\"index %d out of range with count %d\", index, ego.Ego().Count()))\n\t}\n\treturn ego.val[index].getVal()","\tif uint(index) > uint(len(ego.val)) {\n\t\tpanic(fmt.Sprintf(\"index %d out of range with count %d\", index, ego.Ego().Count()))\n\t}\n\treturn ego.val[index].getVal()"),
+("C01_float_scratch_suffix_on_no_e","anytype.go","\tresult := strconv.FormatFloat(val, 'f', -1, 64)\n\tif !strings.Contains(result, \".\") {\n\t\tresult += \".0\"\n\t}\n\treturn result","\tvar scratch [32]byte\n\tresult := strconv.AppendFloat(scratch[:0], val, 'f', -1, 64)\n\tif !strings.Contains(string(result[1:]), \".\") {\n\t\tresult = append(result, '.', '0')\n\t}\n\treturn string(result)"),
+("C13_native_scalar_arm_nil_to_zero","anytype.go","func native(value any) any {\n\tswitch v := value.(type) {\n\tcase Object:","func native(value any) any {\n\tswitch v := value.(type) {\n\tcase nil:\n\t\treturn 0\n\tcase Object:"),
+("C08_copy_kindarm_shares_list","object_impl.go","\tfor key, value := range ego.val {\n\t\tobj.Set(key, value.copy())\n\t}\n\treturn obj","\tfor key, value := range ego.val {\n\t\tswitch v := value.(type) {\n\t\tcase *atString:\n\t\t\tobj.Set(key, v.val)\n\t\tcase *list:\n\t\t\tobj.Set(key, v)\n\t\tdefault:\n\t\t\tobj.Set(key, value.copy())\n\t\t}\n\t}\n\treturn obj"),
+("C08_copy_kindarm_nil_as_string","list_impl.go","\tfor i, value := range ego.val {\n\t\tlist.val[i] = parseVal(value.copy())\n\t}\n\treturn list","\tfor i, value := range ego.val {\n\t\tswitch v := value.(type) {\n\t\tcase *atInt:\n\t\t\tlist.val[i] = &atInt{val: v.val}\n\t\tcase *atNil:\n\t\t\tlist.val[i] = &atString{val: \"\"}\n\t\tdefault:\n\t\t\tlist.val[i] = parseVal(value.copy())\n\t\t}\n\t}\n\treturn list"),
+("C02_list_first_then_rest_from_two","list_impl.go","\tvar result strings.Builder\n\tresult.WriteRune('[')\n\tfor i, value := range ego.val {\n\t\tresult.WriteString(value.serialize())\n\t\tif i+1 < len(ego.val) {\n\t\t\tresult.WriteRune(',')\n\t\t}\n\t}","\tvar result strings.Builder\n\tresult.WriteRune('[')\n\tif len(ego.val) > 0 {\n\t\tresult.WriteString(ego.val[0].serialize())\n\t\tif len(ego.val) > 1 {\n\t\t\tfor _, value := range ego.val[2:] {\n\t\t\t\tresult.WriteRune(',')\n\t\t\t\tresult.WriteString(value.serialize())\n\t\t\t}\n\t\t}\n\t}"),
+("C17_reverse_pointer_sequential","list_impl.go","\t\tego.val[i], ego.val[opp] = ego.val[opp], ego.val[i]","\t\tlower := &ego.val[i]\n\t\tupper := &ego.val[opp]\n\t\t*lower = *upper\n\t\t*upper = *lower"),
 ]
 
 env=dict(os.environ, GOFLAGS="-mod=mod", GOPROXY="off", GOSUMDB="off", GOTOOLCHAIN="local", GOWORK="off")
